@@ -384,11 +384,11 @@ func readTXTErrorCode(data []byte) (TXTErrorCode, uint32, error) {
 		return ret, 0, err
 	}
 
-	ret.ModuleType = uint8((u32 >> 0) & 0x7)           // 3:0
+	ret.ModuleType = uint8((u32 >> 0) & 0xf)           // 3:0
 	ret.ClassCode = uint8((u32 >> 4) & 0x3f)           // 9:4
 	ret.MajorErrorCode = uint8((u32 >> 10) & 0x1f)     // 14:10
 	ret.SoftwareSource = (u32>>15)&0x1 != 0            // 15
-	ret.MinorErrorCode = uint16((u32 >> 16) & 0x3ffff) // 27:16
+	ret.MinorErrorCode = uint16((u32 >> 16) & 0xfff)   // 27:16
 	ret.Type1Reserved = uint8((u32 >> 28) & 0x3)       // 29:28
 	ret.ProcessorSoftware = (u32>>30)&0x1 != 0         // 30
 	ret.ValidInvalid = (u32>>31)&0x1 != 0              // 31
